@@ -42,7 +42,7 @@ def run(chk, repo, tier):
     # restate C20
     from . import C20 as _dep_C20
     from ..report import SubCheck as _SubCheck
-    chk.rule("C08.R7", "the field classes hold no shared mutable state (C20 re-stated)", 50)
+    chk.rule("C08.R7", "the field classes hold no shared mutable state (C20 re-stated for the field modules)", 10)
     _sub = _SubCheck()
     _err = None
     try:
@@ -50,7 +50,7 @@ def run(chk, repo, tier):
     except AnalysisError as _e:
         _err = _e
     for _rule, _construct, _key, _ok, _detail, _where in _sub.obs:
-        if True:
+        if _construct.startswith("py_ecc.fields") or _construct.startswith("py_ecc.utils") or "fields/" in str(_where):
             chk.ob("C08.R7", _construct, f"[{_rule}] {_key}", _ok, _detail, _where)
     if _err is not None and all(o[3] for o in _sub.obs):
         raise _err
@@ -119,6 +119,7 @@ MANIFEST = {
             "moduli and other primes in the thorough tier): every operator's result is the quotient-ring result, stored "
             "reduced, in the operand's class — hence associativity, commutativity, distributivity, neutral elements and negation "
             "are inherited; prime_field_inv is the inverse with inv0(0)=0; x**n = x^n for every n ≥ 0 by loop invariant, with "
-            "no recursion depth proportional to the exponent. FQP.inv (polynomial Euclid) is not decided.",
+            "no recursion depth proportional to the exponent. The polynomial-Euclid inv() is decided for the quadratic extensions "
+            "(a·inv(a) = 1 on every path of the loop, inv(0) = 0, termination within the degree bound); for degree 12 it is not.",
     "note": "Trusted: evaluator model, checker's polynomial/tower arithmetic. p prime is C07.R5.",
 }
